@@ -131,22 +131,16 @@ func (cw *codeWorld) login(ch *kernel.Chooser) string {
 	return fmt.Sprintf("login %s as %s -> code %s", p.id, user, short(code))
 }
 
-// redeem sends one code exchange with a chosen set of deviations and checks the answer.
-func (cw *codeWorld) redeem(step int, ch *kernel.Chooser) string {
-	if len(cw.codes) == 0 {
-		return "redeem: no code"
-	}
+// deviate builds one redemption request for a code: the honest one, changed by ndev deviations.
+func (cw *codeWorld) deviate(ch *kernel.Chooser, ic *issuedCode, ndev int) (form url.Values, creds world.Creds, presentedClient string, devs []string) {
 	w := cw.w
-	ic := cw.codes[ch.Int(len(cw.codes))]
 	owner := ic.ar.ClientID
-	form := url.Values{"grant_type": {"authorization_code"}, "code": {ic.code}, "redirect_uri": {ic.ar.RedirectURI}}
+	form = url.Values{"grant_type": {"authorization_code"}, "code": {ic.code}, "redirect_uri": {ic.ar.RedirectURI}}
 	if ic.ar.Challenge != nil {
 		form.Set("code_verifier", ic.verifier)
 	}
-	creds := w.RightCreds(owner)
-	presentedClient := owner
-	var devs []string
-	ndev := []int{0, 0, 0, 1, 1, 1, 1, 2}[ch.Int(8)]
+	creds = w.RightCreds(owner)
+	presentedClient = owner
 	for d := 0; d < ndev; d++ {
 		switch ch.Int(9) {
 		case 0, 1: // another client presents its own, valid credentials
@@ -195,6 +189,18 @@ func (cw *codeWorld) redeem(step int, ch *kernel.Chooser) string {
 			}
 		}
 	}
+	return form, creds, presentedClient, devs
+}
+
+// redeem sends one code exchange with a chosen set of deviations and checks the answer.
+func (cw *codeWorld) redeem(step int, ch *kernel.Chooser) string {
+	if len(cw.codes) == 0 {
+		return "redeem: no code"
+	}
+	w := cw.w
+	ic := cw.codes[ch.Int(len(cw.codes))]
+	owner := ic.ar.ClientID
+	form, creds, presentedClient, devs := cw.deviate(ch, ic, []int{0, 0, 0, 1, 1, 1, 1, 2}[ch.Int(8)])
 	hadSuccess := ic.successes > 0
 	ic.attempts++
 	// environment faults on this one request: the response is lost on the way back (the client will retry), or one
@@ -361,19 +367,18 @@ func (cw *codeWorld) concurrentRedeem(step int, ch *kernel.Chooser) string {
 		creds  world.Creds
 		form   url.Values
 		resp   *world.Resp
+		devs   []string
 	}
 	sides := make([]*side, 2)
 	for i := range sides {
 		sd := &side{client: owner}
-		if i == 1 && ch.Bool(1, 3) {
-			others := slices.DeleteFunc(w.SortedClients(), func(s string) bool { return s == owner })
-			sd.client = others[ch.Int(len(others))]
+		// the first request is the rightful one; the second is rightful too or deviates (another client, wrong or
+		// missing secret, redirect_uri or verifier) - whatever it is, it is judged on its own merits
+		ndev := 0
+		if i == 1 {
+			ndev = []int{0, 1, 1, 2}[ch.Int(4)]
 		}
-		sd.creds = w.RightCreds(sd.client)
-		sd.form = url.Values{"grant_type": {"authorization_code"}, "code": {ic.code}, "redirect_uri": {ic.ar.RedirectURI}}
-		if ic.ar.Challenge != nil {
-			sd.form.Set("code_verifier", ic.verifier)
-		}
+		sd.form, sd.creds, sd.client, sd.devs = cw.deviate(ch, ic, ndev)
 		sides[i] = sd
 		name := fmt.Sprintf("t%d", i)
 		sched.Go(name, func() {
@@ -408,9 +413,9 @@ func (cw *codeWorld) concurrentRedeem(step int, ch *kernel.Chooser) string {
 		if sd.resp == nil {
 			continue
 		}
-		desc := fmt.Sprintf("concurrent redeem #%d code of %s by %s replay=%v -> %d", i, owner, sd.client, hadSuccess, sd.resp.Status)
+		desc := fmt.Sprintf("concurrent redeem #%d code of %s by %s devs=%v replay=%v -> %d", i, owner, sd.client, sd.devs, hadSuccess, sd.resp.Status)
 		before := ic.successes
-		cw.evalRedeem(step, desc, ic, sd.form, sd.creds, sd.client, sd.client != owner, hadSuccess, sd.resp)
+		cw.evalRedeem(step, desc, ic, sd.form, sd.creds, sd.client, len(sd.devs) > 0, hadSuccess, sd.resp)
 		if ic.successes > before {
 			succ++
 		}
